@@ -52,7 +52,7 @@ for _m in (1, 2):
             CASES.append(("cipher-stall", _m, _s, _k))
 NENUM = len(CASES)
 
-TIERS = {"quick": NENUM + 4000, "thorough": NENUM + 600000}
+TIERS = {"quick": NENUM + 20000, "thorough": NENUM + 2000000}
 CHUNK = 120
 RULE = (f"fault enumeration: runs 0..{NENUM - 1} enumerate every stall point - after every plaintext "
         f"byte offset of 4 request shapes x 3 transport modes, and after every ciphertext byte "
